@@ -86,10 +86,14 @@ head = ('240 independently written breakages (round 1: two per property, ids '
         'None-valued options, integer-key metadata; C19 several perturbation '
         'styles, spelled encodings stored verbatim; C20 markdown preambles '
         'with fenced code, one-line diffs, "GIT binary patch". After that '
-        '236 of 240 are caught by their tagged check; the other four '
+        '233 of 240 are caught by their tagged check; the other seven '
         "(C04-r4a encoding='', C02-r5a UTF-7, C03-r5a / C06-r5c "
-        'under-indented foreign lines) only manifest outside the quantifier '
-        'of their property and each meta.json says why.\n\n'
+        'under-indented foreign lines, C10-r3a / C10-r4b / C04-r5b second '
+        'iteration of one reader object) only manifest outside the quantifier '
+        'of their property and each meta.json says why. The last three WERE '
+        'caught until the behaviour-preserving change P7-c (section 9.1) '
+        'showed that demanding anything of a second iteration is more than '
+        'the properties state.\n\n'
         '| id | change | caught by | also run, silent | first mechanism (tagged check) |\n'
         '|---|---|---|---|---|\n')
 mut = json.load(open(os.path.join(ROOT, 'mutants', 'index.json')))
